@@ -144,6 +144,9 @@ def gen_history(rng, info, hid, maxops):
     inf = info[name]
     nb = rng.randint(1, 3)
     main_v = rng.choice([0, 1, 1])
+    twins = rng.random() < 0.4   # builders over TWIN reactions (same physics, other resonance names) in one process
+    if twins:
+        nb = max(nb, 2)
     n = rng.randint(1, maxops)
     tr = Tracker(name, info)
     ops = []
@@ -152,7 +155,7 @@ def gen_history(rng, info, hid, maxops):
         ops.append(op)
         tr.apply(op)
 
-    add(["new", main_v])
+    add(["new", main_v + (2 if twins and rng.random() < 0.5 else 0)])
     while len(ops) < n:
         nbld = len(tr.builders)
         kinds = ["align", "scalar", "stable", "helcoup", "naming", "assign", "regtopo", "permutate", "formulate"]
@@ -162,12 +165,12 @@ def gen_history(rng, info, hid, maxops):
             wts.append(14)
         k = rng.choices(kinds, weights=wts)[0]
         if k == "new":
-            add(["new", main_v if rng.random() < 0.8 else 1 - main_v])
+            add(["new", (main_v if rng.random() < 0.8 else 1 - main_v) + (2 if twins and rng.random() < 0.5 else 0)])
             continue
         b = rng.randrange(nbld)
         v = tr.builders[b]["variant"]
         if k == "align":
-            if v == 1:
+            if v % 2 == 1:
                 code = rng.choices([11, 12, 13, 0, 1], weights=[25, 25, 25, 20, 5])[0]
             else:
                 code = rng.choices([0, 1, 11, 12], weights=[45, 45, 5, 5])[0]
@@ -178,7 +181,7 @@ def gen_history(rng, info, hid, maxops):
             if rng.random() < 0.3:
                 add(["stable", b, None])
             else:
-                ids = list(range(v, v + inf["n_final"]))
+                ids = list(range(v % 2, v % 2 + inf["n_final"]))
                 sub = [i for i in ids if rng.random() < 0.5] or [rng.choice(ids)]
                 rng.shuffle(sub)
                 add(["stable", b, sub])
@@ -245,7 +248,7 @@ def coq_ops(hist, info):
         k = op[0]
         if k == "new":
             variants.append(op[1])
-            out.append("NewBuilder %d" % (4 * idx + 2 * op[1] + canon))
+            out.append("NewBuilder %d" % (8 * idx + 2 * op[1] + canon))
             continue
         b = op[1]
         v = variants[b] if 0 <= b < len(variants) else 0
@@ -279,10 +282,10 @@ def write_cases(path, hists, info):
     for idx, name in enumerate(NAMES):
         inf = info[name]
         canon = 1 if inf["canonical"] else 0
-        for v in (0, 1):
+        for v in range(4):
             for sel, ds in enumerate(inf["decays_of"][v]):
-                dk.append("  | %d, %d => %s" % (4 * idx + 2 * v + canon, sel, coq_list(ds)))
-            bt.append("  | %d => %s" % (4 * idx + 2 * v + canon, coq_list([100 * idx + 10 * v + t for t in inf["base"][v]])))
+                dk.append("  | %d, %d => %s" % (8 * idx + 2 * v + canon, sel, coq_list(ds)))
+            bt.append("  | %d => %s" % (8 * idx + 2 * v + canon, coq_list([100 * idx + 10 * v + t for t in inf["base"][v]])))
             for t, ps in enumerate(inf["perms"][v]):
                 po.append("  | %d => %s" % (100 * idx + 10 * v + t, coq_list([100 * idx + 10 * v + p for p in ps])))
     with open(path, "w") as fh:
@@ -298,7 +301,7 @@ def write_cases(path, hists, info):
 def decode_enc(enc, info):
     it = iter(enc)
     r = next(it)
-    idx, v = r // 4, (r % 4) // 2
+    idx, v = r // 8, (r % 8) // 2
     name = NAMES[idx]
     align, scalar = next(it), bool(next(it))
     sflag, n = next(it), next(it)
@@ -507,6 +510,13 @@ def main_search(seed, n, maxops, workdir, full_seed_matrix=False):
     fixed.append({"reaction": "jpsi_ksp_hel", "ops": [["new", 0], ["helcoup", 0, True], ["assign", 0, 0, 1], ["assign", 0, 1, 4],
                                                      ["formulate", 0, []], ["helcoup", 0, False], ["assign", 0, 1, 0],
                                                      ["assign", 0, 0, 0], ["formulate", 0, []]]})
+    # twin reactions: formulate r1, then its renamed twin r2 (and back), couplings + dynamics so that names show
+    fixed.append({"reaction": "jpsi_gpipi_hel", "ops": [["new", 0], ["assign", 0, 0, 1], ["formulate", 0, []],
+                                                       ["new", 2], ["assign", 1, 0, 1], ["formulate", 1, []],
+                                                       ["helcoup", 1, True], ["formulate", 1, []], ["helcoup", 0, True],
+                                                       ["formulate", 0, []]]})
+    fixed.append({"reaction": "jpsi_ksp_hel", "ops": [["new", 3], ["align", 0, 12], ["formulate", 0, []], ["new", 1],
+                                                     ["align", 1, 12], ["stable", 1, [1, 2]], ["formulate", 1, []]]})
     _dk = info["jpsi_ksp_hel"]["decays_of"][0]
     fixed.append({"reaction": "jpsi_ksp_hel", "ops": [["new", 0], ["formulate", 0, []],
                                                      ["assigndecay", 0, _dk[0][0], 1, "decay"], ["formulate", 0, []],
